@@ -4,5 +4,6 @@
 pub mod cards;
 pub mod hand5;
 pub mod evalmodel;
+pub mod notation;
 pub mod runner;
 pub mod props;
